@@ -27,6 +27,9 @@ def run(ctx):
         o = c02.opts(rng); o.update(default_style=None, default_flow_style=False, canonical=None, width=None)
         cases.append([[values.encode(simple_value(rng, rng.choice([1, 2, 3, 4]))) for _ in range(rng.choice([1, 2]))], o, rng.choice(['py', 'py', 'c']), True])
     corr.direct(ctx, 'c15', cases, describe=lambda c: dict(docs=c[0], opts=c[1], dumper=c[2], simple=c[3]), label='options')
+    from tools import events
+    evc = [[events.enc_case(events.stream(rng, wf=True, ndocs=rng.choice([1, 2, 3, 4])), events.options(rng)), rng.choice(['py', 'py', 'c']), True] for _ in range(ctx.n(2500, 30000))]
+    corr.direct(ctx, 'c05', evc, describe=lambda c: dict(events=c[0], backend=c[1], wellformed=c[2]), label='emit_accepted_by_reader')
     ctx.partial = [dict(theorem='ascii_only / line_breaks_requested / markers_and_directives / result_type / canonical_parse', missing='option normalisation and the indent-stack invariant are proved; the output-level clauses are decided by exact-text correspondence and the direct checker')]
     return ctx.finish(assumptions=['checked encodings: None, utf-8, utf-16-le, utf-16-be', 'the repository canonical parser knows LF breaks only and no %TAG / ... : breaks are normalised, ... lines dropped, tags cases skipped for that clause'])
 
